@@ -1192,7 +1192,6 @@ theorem specEscape_of_escape {e : List Nat} {v : Nat} (h : Escape e v) :
     have : [117, 123] ++ ds ++ [125] = 117 :: 123 :: (ds ++ 125 :: []) := by simp
     rw [this, specEscape_u_closed ds [] hall, if_pos ⟨h2, h6⟩, uniVal, if_pos hr]
     simp only [List.length_cons, List.length_append, List.length_nil]
-    congr 2
 
 theorem escape_of_specEscape {r : List Nat} {cp n : Nat} (h : specEscape r = some (some cp, n)) :
     ∃ e rest, r = e ++ rest ∧ e.length = n ∧ Escape e cp := by
